@@ -15,6 +15,7 @@ RULES = {
     "C14.R4": lambda ctx: decoderrules.field_coverage(ctx, "C14.R4"),
     "C14.R4b": lambda ctx: bldrules.hermes_permutation(ctx, "C14.R4b"),
     "C14.R4c": lambda ctx: encrules.serde_symmetry(ctx, "C14.R4c"),
+    "C14.R0": lambda ctx: __import__("rules.foundations", fromlist=["x"]).accessors(ctx, "C14.R0", ['types::Token']),
     "C14.R5": lambda ctx: detrules.hermes_pf(ctx, "C14.R5"),
 }
 
